@@ -68,6 +68,16 @@ pub fn last_alloc_used() -> u64 { LAST_USED.with(|b| b.get()) }
 pub fn alloc_reset() { BYTES.with(|b| b.set(0)); FREED.with(|b| b.set(0)); }
 pub fn alloc_read() -> u64 { BYTES.with(|b| b.get()) }
 /// bytes allocated minus bytes freed on this thread since the last `alloc_reset` (what a call sequence retains)
+/// implementation-side allocation oracle for COMPARED streams whose model stops early (no `A=` tie possible): the allocator traffic of
+/// the `exec` call that just returned must stay ≤ 2·(a·len + b) + slack
+pub fn alloc_side_check(run: &mut Run, stream: &str, entry: &str, input: &str, len: usize, a: u64, b: u64) {
+    let used = last_alloc_used();
+    let lim = 2 * (a * len as u64 + b) + ALLOC_SLACK;
+    let e = run.dist.entry(format!("alloc_max_ratio_x100:{stream}")).or_insert(0);
+    let ratio = used * 100 / (a * len as u64 + b).max(1);
+    if ratio > *e { *e = ratio; }
+    if used > lim { run.fail(&format!("alloc:{entry}"), &format!("{stream} {input}"), &format!("allocated {used} bytes for {len} input bytes (limit {lim})")); }
+}
 pub fn alloc_retained() -> i64 { BYTES.with(|b| b.get()) as i64 - FREED.with(|b| b.get()) as i64 }
 
 // ---------------------------------------------------------------------------------------------
